@@ -26,4 +26,22 @@ PROPS = {
                  "lists of 2^32 or more leaves (128 GiB) are outside the model"],
         assumes=["leaf lists shorter than 2^32"],
     ),
+    "C15": dict(
+        n_quick=120, n_thorough=600, audit=8, audit_maxlen=2500,
+        rule="one case = one depth sequence with its scripts/versions/hidden hashes (kind build), one weight vector (kind huff), one byte string "
+             "(kind cbparse); thorough: every depth sequence of length <= 6 over depths 0..5 (valid and invalid), quick: every sequence of length <= 3 and "
+             "n sampled ones per longer length; every full-binary-tree shape with <= 6 leaves filled twice; random trees up to 14 leaves and single "
+             "mutations of them; chains at depth 126..129 and absurd depths; Huffman weight vectors {1..4}^n (n <= 5 thorough, <= 3 quick) plus random "
+             "(zero, equal, huge weights, duplicate scripts) and zero-weight chains past depth 128; distinct = distinct case text; non-trivial = at least 2 leaves",
+        trusted=["the three tagged hashes are abstract functions in the theorems (collision extraction for binding); the executable instance is the Gallina SHA-256 "
+                 "with the tag strings read from src/taproot.rs by the translator",
+                 "secp256k1 (x-only key validity, Scalar::from_be_bytes, add_tweak, tweak_add_check, key-pair tweak) is an oracle: Section variables with the premises "
+                 "tweak_check P Q par t = true <-> tweak P t = Some (Q, par), same-parity injectivity of t |-> P + tG, and the abstract group laws of C15_keypair; "
+                 "in correspondence runs the harness records the real add_tweak results for the two keys of the case in the case line, a tweak not in that table "
+                 "has no recorded result (tweak_check false)",
+                 "BinaryHeap<(Reverse<u64>, NodeInfo)> is modelled as a multiset with extract-maximum under the derived tuple order (ties: greater NodeInfo first); "
+                 "BTreeMap/BTreeSet as sorted association lists with the derived lexicographic orders; debug_assert! in tap_tweak is not modelled"],
+        assumes=["scripts shorter than 2^64 bytes (leaf message injectivity)", "hidden node hashes are 32 bytes (TapNodeHash)",
+                 "the Huffman depth-order theorem assumes the u64 weight sum does not saturate (sum of weights < 2^64)"],
+    ),
 }
